@@ -81,7 +81,7 @@ var files = ev.NewCheck("C02", "grammar-files",
 		return Case{gen.File(t, o)}
 	}, run)
 
-func TestPropGrammarFiles(t *testing.T) { files.Rapid(t, 3000, 40000) }
+func TestPropGrammarFiles(t *testing.T) { files.Rapid(t, 3000, 30000) }
 
 // ManyCase: files with very many minimal tracks (track counter width).
 type ManyCase struct {
